@@ -107,6 +107,13 @@ Judge(T) ==
                 IN  {<<"C09", "empty-pair-kept", C[k].l, C[k].r>> : k \in {k \in DOMAIN C : BothE(k) /\ Kept(k) /\ ~Admit}}
                     \cup {<<"C09", "empty-pair-dropped", C[k].l, C[k].r>> : k \in {k \in DOMAIN C : BothE(k) /\ ~Kept(k) /\ Admit}}
            ELSE {})
+     \cup (IF T.kind = "candset" /\ T.filt # "OVERLAP" /\ T.meas \in SetMeasures
+           THEN (* C04: a candidate pair whose exact similarity reaches the threshold survives filter_candset *)
+                {<<"C04", "qualifying-pair-dropped", C[k].l, C[k].r>> :
+                    k \in {k \in DOMAIN C : ~Missing(C[k])
+                              /\ KeepMust(T.meas, <<T.t[1], T.t[2]>>, SeqToSet(LRow(C[k].l).v), SeqToSet(RRow(C[k].r).v))
+                              /\ ~(\E r \in DOMAIN Rows : Rows[r].id = C[k].id)}}
+           ELSE {})
      \cup (IF T.kind = "candset" /\ T.filt # "OVERLAP"
            THEN {<<"C08", "filter_pair-missing-value", C[k].l, C[k].r>> :
                     k \in {k \in DOMAIN C : Missing(C[k]) /\ T.fp[k] # (IF T.am = 1 THEN 0 ELSE 1)}}
